@@ -69,7 +69,7 @@ def parallelizeM {α : Type} (t : Nat) (v : List α) (f : List α → Nat → Li
   (chunks v.length t).flatMap (fun c => f ((v.drop c.1).take c.2) c.1)
 
 section
-variable {F : Type} [Mul F] [OfNat F 1] [OfNat F 0]
+variable {F : Type} [Mul F] [One F] [Zero F]
 
 /-- `pow_vartime` (library routine, specified as the plain power). -/
 def powN (x : F) : Nat → F
